@@ -194,8 +194,7 @@ def _slice(text, start, end, what):
 
 
 # ---- imported models (not copied): host objects of unit ptsize, OpenOptions helpers of unit handles
-PTSIZE_HOST = _slice(PTSIZE.PRE, 'pub type Inode = u64;', '// the capabilities: what a request may do to the host', 'host objects (vx/units/ptsize.py)')
-PTSIZE_HANDLEDATA = _slice(PTSIZE.PRE, '// ---- HandleData: an open descriptor', '#[verifier::external_body] pub struct CapFsetid', 'HandleData (vx/units/ptsize.py)')
+PTSIZE_HOST = _slice(PTSIZE.PRE, 'pub type Inode = u64;', 'pub uninterp spec fn host_size(fd: i32) -> i64;', 'host objects (vx/units/ptsize.py)')
 PTSIZE_SEAL = _slice(PTSIZE.PRE, '    // the arithmetic gate: contract proved on the real text in unit `seal`', '}\n#[verifier::external_body] pub fn fmt_opaque', 'seal_size_check (vx/units/ptsize.py)')
 PTSIZE_TAIL = _slice(PTSIZE.PRE, '#[verifier::external_body] pub fn fmt_opaque', '// ---- C18 as capabilities', 'fmt_opaque/hasf/empty_cstr/seal_keeps_size (vx/units/ptsize.py)')
 _EC = "pub fn empty_cstr() -> (r: &'static CStr) { unimplemented!() }"
@@ -206,7 +205,7 @@ HANDLES_OPENOPTS = _slice(HANDLES.PRE_PT, 'impl OpenOptions {', '// the inode a 
 
 PRE = r'''
 // ===== imported from unit ptsize: File / BorrowedFd / AsRawFd (a descriptor is known by its number), md_new, File::from_raw_fd
-''' + PTSIZE_HOST + r'''
+''' + PTSIZE_HOST + r'''pub uninterp spec fn host_size(fd: i32) -> i64;            // st_size of the file behind the descriptor (fstat)
 // ===== the serving thread's host state as THIS request sees it (ghost token, rule R23)
 pub ghost struct Ret { pub nr: int, pub ret: int, pub errno: i32 }
 pub tracked struct Host {
@@ -271,8 +270,13 @@ pub fn stat_fd<D: AsRawFd>(dir: &D, path: Option<&CStr>) -> (r: io::Result<stat6
     ensures path is None ==> r == res_fstat(dir.sfd()),
             r is Ok && path is None ==> r->Ok_0.st_size == host_size(dir.sfd()) && r->Ok_0.st_size >= 0
 { unimplemented!() }
-''' + PTSIZE_HANDLEDATA + r'''
+// ---- HandleData: an open descriptor and the flags word last applied to it (the append-mode bookkeeping of C18 lives in unit ptsize)
+#[verifier::external_body] pub struct HandleData { _p: u8 }
 impl HandleData {
+    pub uninterp spec fn hfd(&self) -> i32;
+    #[verifier::external_body] pub fn borrow_fd(&self) -> (r: BorrowedFd<'_>) ensures r.sfd() == self.hfd() { unimplemented!() }
+    #[verifier::external_body] pub fn get_flags(&self) -> (r: u32) { unimplemented!() }
+    #[verifier::external_body] pub fn set_flags(&self, flags: u32) { unimplemented!() }
     #[verifier::external_body] pub fn new(inode: Inode, file: File, flags: u32) -> (r: HandleData) ensures r.hfd() == file.sfd() { unimplemented!() }
     #[verifier::external_body] pub fn get_file_mut(&self) -> (r: (MutexGuard<()>, &File)) ensures r.1.sfd() == self.hfd() { unimplemented!() }
 }
@@ -670,7 +674,7 @@ def unit(root='/repo'):
         ]),
         Raw(DROPS),
         F(PT, None, 'drop_cap_fsetid', canary=True,
-          requires=['caps::caps_ok(true)'],
+          requires=['caps::caps_ok(true) // [C05.caps.drop_only_when_asked] CAP_FSETID is dropped only where the request asks for it (kill-priv flags)'],
           ensures=['res is Ok && res->Ok_0 is Some ==> old(hs).fsetid && !final(hs).fsetid // [C05.caps.dropped]',
                    'res is Ok && res->Ok_0 is None ==> !old(hs).fsetid && !final(hs).fsetid // [C05.caps.nothing_to_drop]',
                    'res is Err ==> final(hs).fsetid == old(hs).fsetid',
